@@ -37,6 +37,10 @@ class RandomStub:
         self.ties = ties
         self.max_expo = max_expo
         self.max_unif = max_uniform_per_step
+        self.n_random_calls = 0
+        self.n_choice_calls = 0
+        self.script_u = None
+        self.script_choice = None
         self.n_expo = 0
         self.n_unif_step = 0
         self.on_draw = on_draw
@@ -55,6 +59,9 @@ class RandomStub:
         if self.max_unif is not None and self.n_unif_step > self.max_unif:
             raise BoundReached('uniform draws per step > %d' % self.max_unif)
         u = symx.ENG.var('u', lo=0, hi=1, hi_strict=True)
+        if getattr(self, 'script_u', None) is not None:
+            self.script_u(self.n_random_calls, u)        # a harness may steer a long run of draws by assumptions instead of forks
+        self.n_random_calls += 1
         self._log('random', u)
         return u
 
@@ -77,7 +84,12 @@ class RandomStub:
     def choice(self, seq):
         if not len(seq):
             raise IndexError('Cannot choose from an empty sequence')
-        i = symx.ENG.choose(len(seq), 'choice')
+        i = None
+        if getattr(self, 'script_choice', None) is not None:
+            i = self.script_choice(self.n_choice_calls, seq)
+        self.n_choice_calls += 1
+        if i is None:
+            i = symx.ENG.choose(len(seq), 'choice')
         self._log('choice', list(seq), i)
         return seq[i]
 
